@@ -908,6 +908,7 @@ pub fn run(ctx: &Ctx) -> i32 {
         check_tape(tape, &g, stats, counting)
     });
     rep.add(out);
+    crate::fuzzrun::tape_campaign(ctx, &mut rep, "C09", &gates);
     rep.replay_witnesses(&ctx.findings, &|w| witness(w));
     rep.extra.insert("gates_off".into(), json!(off));
     rep.assumptions = vec![
@@ -986,4 +987,10 @@ pub fn replay(ctx: &Ctx, v: &Value) -> i32 {
             1
         }
     }
+}
+
+/// one tape through the in-process oracle (used by the coverage-guided `tapes` fuzz target)
+pub fn fuzz_one(tape: &[u8], gates: &Gates) -> Result<(), Failure> {
+    let mut s = Stats::default();
+    check_tape(tape, gates, &mut s, false)
 }
